@@ -237,60 +237,65 @@ abbrev Trace := List Entry
 
 def Trace.evs (t : Trace) : List Ev := t.flatMap (·.out.evs)
 
-/-- `(id, p)` for every `send_request(p)` that returned `id` -/
-def issued : Trace → List (RId × Peer)
-  | [] => []
-  | e :: t =>
-    match e.op, e.out.ret with
-    | .send p, some id => (id, p) :: issued t
-    | _, _ => issued t
+/-- `(id, p)` when the entry is a `send_request(p)` that returned `id` -/
+def issuedOf (e : Entry) : List (RId × Peer) :=
+  match e.op, e.out.ret with
+  | .send p, some id => [(id, p)]
+  | _, _ => []
+
+def issued (t : Trace) : List (RId × Peer) := t.flatMap issuedOf
 
 /-- outbound outcomes: `Message::Response` and `OutboundFailure` events, as `(id, p)` -/
-def outDone : List Ev → List (RId × Peer)
-  | [] => []
-  | .response p _ id :: t => (id, p) :: outDone t
-  | .outFail p _ id _ :: t => (id, p) :: outDone t
-  | _ :: t => outDone t
+def outDoneOf : Ev → Option (RId × Peer)
+  | .response p _ id => some (id, p)
+  | .outFail p _ id _ => some (id, p)
+  | _ => none
+
+def outDone (evs : List Ev) : List (RId × Peer) := evs.filterMap outDoneOf
 
 /-- inbound requests delivered to the application (`Message::Request`) -/
-def delivered : List Ev → List (RId × Peer)
-  | [] => []
-  | .request p _ id :: t => (id, p) :: delivered t
-  | _ :: t => delivered t
+def deliveredOf : Ev → Option (RId × Peer)
+  | .request p _ id => some (id, p)
+  | _ => none
+
+def delivered (evs : List Ev) : List (RId × Peer) := evs.filterMap deliveredOf
 
 /-- inbound outcomes: `ResponseSent` and `InboundFailure` events -/
-def inDone : List Ev → List (RId × Peer)
-  | [] => []
-  | .respSent p _ id :: t => (id, p) :: inDone t
-  | .inFail p _ id _ :: t => (id, p) :: inDone t
-  | _ :: t => inDone t
+def inDoneOf : Ev → Option (RId × Peer)
+  | .respSent p _ id => some (id, p)
+  | .inFail p _ id _ => some (id, p)
+  | _ => none
 
-/-- ids carried by the handler's `Request` events (chosen by the handler = environment) -/
-def reqIds : Trace → List RId
-  | [] => []
-  | e :: t => match e.op with
-    | .hRequest _ _ id => id :: reqIds t
-    | _ => reqIds t
+def inDone (evs : List Ev) : List (RId × Peer) := evs.filterMap inDoneOf
+
+/-- id carried by a handler `Request` event (chosen by the handler = environment) -/
+def reqIdOf : Op → List RId
+  | .hRequest _ _ id => [id]
+  | _ => []
+
+def reqIds (t : Trace) : List RId := t.flatMap (fun e => reqIdOf e.op)
+
+/-- change of the number of connections to `p` the Swarm has open -/
+def openDelta (p : Peer) (e : Entry) : Int :=
+  match e.op with
+  | .established q _ => if q = p then 1 else 0
+  | .closed q _ => if q = p ∧ e.out.panic.isNone then -1 else 0
+  | _ => 0
 
 /-- number of connections to `p` the Swarm has open: establishments minus successful closes -/
 def openCount (p : Peer) : Trace → Int
   | [] => 0
-  | e :: t =>
-    (match e.op with
-     | .established q _ => if q = p then 1 else 0
-     | .closed q _ => if q = p ∧ e.out.panic.isNone then -1 else 0
-     | _ => 0) + openCount p t
+  | e :: t => openDelta p e + openCount p t
 
-/-- is a `Dial` for `p` outstanding at the end of the trace: emitted, and since then neither a
-connection to `p` was established nor a (real) dial failure for `p` reported -/
-def dialing (p : Peer) : Trace → Bool → Bool
-  | [], acc => acc
-  | e :: t, acc =>
-    let acc1 := match e.op with
-      | .established q _ => if q = p then false else acc
-      | .dialFailure (some q) _ false => if q = p then false else acc
-      | _ => acc
-    dialing p t (acc1 || decide (Ev.dial p ∈ e.out.evs))
+/-- is a `Dial` for `p` outstanding: emitted, and since then neither a connection to `p` was
+established nor a (real) dial failure for `p` reported -/
+def dialStep (p : Peer) (acc : Bool) (e : Entry) : Bool :=
+  (match e.op with
+   | .established q _ => if q = p then false else acc
+   | .dialFailure (some q) _ false => if q = p then false else acc
+   | _ => acc) || decide (Ev.dial p ∈ e.out.evs)
+
+def dialing (p : Peer) (t : Trace) : Bool := t.foldl (dialStep p) false
 
 def strictlyIncreasing : List Nat → Bool
   | [] => true
@@ -306,10 +311,6 @@ def panicExcused (seen : List RId) (op : Op) : Bool :=
   | .hRequest _ _ id => decide (id ∈ seen)
   | _ => false
 
-def reqIdOf : Op → List RId
-  | .hRequest _ _ id => [id]
-  | _ => []
-
 /-- every panic along the trace is excused -/
 def panicsOk (seen : List RId) : Trace → Bool
   | [] => true
@@ -318,33 +319,51 @@ def panicsOk (seen : List RId) : Trace → Bool
 def lastPo (t : Trace) : List (Peer × RId) := (t.getLast?.map (·.po)).getD []
 def lastPi (t : Trace) : List (Peer × RId) := (t.getLast?.map (·.pi)).getD []
 
+/-! The clauses of the property, each a decidable statement about a trace. -/
+
+/-- request ids are unique: strictly increasing in the order of the `send_request` calls -/
+def clIds (t : Trace) : Prop := strictlyIncreasing ((issued t).map (·.1)) = true
+/-- no outbound request id gets two outcomes -/
+def clOnceOut (t : Trace) : Prop := ((outDone t.evs).map (·.1)).Nodup
+/-- outcomes only for issued ids, and for the peer the request was addressed to -/
+def clIssuedOut (t : Trace) : Prop := ∀ x ∈ outDone t.evs, x ∈ issued t
+/-- partition: an issued id is reported pending (for its peer) iff it has had no outcome -/
+def clPartOut (t : Trace) : Prop := ∀ x ∈ issued t, ((x.2, x.1) ∈ lastPo t ↔ x ∉ outDone t.evs)
+def clPendIssuedOut (t : Trace) : Prop := ∀ x ∈ lastPo t, (x.2, x.1) ∈ issued t
+/-- quiescence: no open connection to the peer and no outstanding dial ⇒ the request has had its outcome -/
+def clQuiesOut (t : Trace) : Prop :=
+  ∀ x ∈ issued t, x ∈ outDone t.evs ∨ 0 < openCount x.2 t ∨ dialing x.2 t = true
+def clOnceIn (t : Trace) : Prop := ((inDone t.evs).map (·.1)).Nodup
+def clDeliveredIn (t : Trace) : Prop := ∀ x ∈ inDone t.evs, x ∈ delivered t.evs
+def clPartIn (t : Trace) : Prop := ∀ x ∈ delivered t.evs, ((x.2, x.1) ∈ lastPi t ↔ x ∉ inDone t.evs)
+def clQuiesIn (t : Trace) : Prop := ∀ x ∈ delivered t.evs, x ∈ inDone t.evs ∨ 0 < openCount x.2 t
+
+instance (t : Trace) : Decidable (clIds t) := by unfold clIds; infer_instance
+instance (t : Trace) : Decidable (clOnceOut t) := by unfold clOnceOut; infer_instance
+instance (t : Trace) : Decidable (clIssuedOut t) := by unfold clIssuedOut; infer_instance
+instance (t : Trace) : Decidable (clPartOut t) := by unfold clPartOut; infer_instance
+instance (t : Trace) : Decidable (clPendIssuedOut t) := by unfold clPendIssuedOut; infer_instance
+instance (t : Trace) : Decidable (clQuiesOut t) := by unfold clQuiesOut; infer_instance
+instance (t : Trace) : Decidable (clOnceIn t) := by unfold clOnceIn; infer_instance
+instance (t : Trace) : Decidable (clDeliveredIn t) := by unfold clDeliveredIn; infer_instance
+instance (t : Trace) : Decidable (clPartIn t) := by unfold clPartIn; infer_instance
+instance (t : Trace) : Decidable (clQuiesIn t) := by unfold clQuiesIn; infer_instance
+
 /-- **The property on a trace.**  Returns the first violated clause, `none` when the trace
-satisfies the property. -/
+satisfies the property.  The inbound clauses are stated under the handler contract "the ids of
+`Request` events are fresh" (`(reqIds t).Nodup`; the real handler draws them from an atomic counter). -/
 def specKey (t : Trace) : Option String :=
-  let E := t.evs
-  let iss := issued t
-  let od := outDone E
-  let dl := delivered E
-  let idn := inDone E
   let fresh := decide (reqIds t).Nodup
-  -- request ids are unique (strictly increasing)
-  if !strictlyIncreasing (iss.map (·.1)) then some "ids_not_increasing"
-  -- no outbound id gets two outcomes
-  else if !decide (od.map (·.1)).Nodup then some "double_outcome_out"
-  -- outcomes only for issued ids, reported for the peer the request was sent to
-  else if !od.all (fun x => iss.contains x) then some "outcome_unissued_out"
-  -- partition: an issued id is pending (for its peer) iff it has no outcome yet
-  else if !iss.all (fun x => (lastPo t).contains (x.2, x.1) == !od.contains x) then some "partition_out"
-  else if !(lastPo t).all (fun x => iss.contains (x.2, x.1)) then some "pending_unissued_out"
-  -- quiescence: no open connection and no outstanding dial ⇒ every request has had its outcome
-  else if !iss.all (fun x => od.contains x || decide (0 < openCount x.2 t) || dialing x.2 t false)
-    then some "quiescence_out"
-  -- inbound, under the handler contract "Request ids are fresh"
-  else if fresh && !decide (idn.map (·.1)).Nodup then some "double_outcome_in"
-  else if fresh && !idn.all (fun x => dl.contains x) then some "outcome_undelivered_in"
-  else if fresh && !dl.all (fun x => (lastPi t).contains (x.2, x.1) == !idn.contains x) then some "partition_in"
-  else if fresh && !dl.all (fun x => idn.contains x || decide (0 < openCount x.2 t)) then some "quiescence_in"
-  -- no panic on in-contract ops
+  if !decide (clIds t) then some "ids_not_increasing"
+  else if !decide (clOnceOut t) then some "double_outcome_out"
+  else if !decide (clIssuedOut t) then some "outcome_unissued_out"
+  else if !decide (clPartOut t) then some "partition_out"
+  else if !decide (clPendIssuedOut t) then some "pending_unissued_out"
+  else if !decide (clQuiesOut t) then some "quiescence_out"
+  else if fresh && !decide (clOnceIn t) then some "double_outcome_in"
+  else if fresh && !decide (clDeliveredIn t) then some "outcome_undelivered_in"
+  else if fresh && !decide (clPartIn t) then some "partition_in"
+  else if fresh && !decide (clQuiesIn t) then some "quiescence_in"
   else if !panicsOk [] t then some "panic"
   else none
 
